@@ -129,5 +129,44 @@ impl<'a> ChainNotifier<'a> {
 		Ok(ChainDifference { common_ancestor, connected_blocks })
 	}
 }
+// ---------- check_builds_on (Work/Target opaque with assumed arithmetic) ----------
+pub enum Network { Bitcoin, Testnet }
+pub struct Target(pub u64);
+impl Work { #[verifier::external_body] pub fn add(self, o: Work) -> (r: Work) ensures r.0 == self.0 + o.0 { unimplemented!() } }
+impl Header {
+    #[verifier::external_body] pub fn work(&self) -> Work { unimplemented!() }
+    #[verifier::external_body] pub fn target(&self) -> Target { unimplemented!() }
+}
+pub uninterp spec fn work_of(h: Header) -> Work;
+impl Target {
+    #[verifier::external_body] pub fn min_transition_threshold(&self) -> Target { unimplemented!() }
+    #[verifier::external_body] pub fn max_transition_threshold_unchecked(&self) -> Target { unimplemented!() }
+    #[verifier::external_body] pub fn gt(&self, o: &Target) -> (r: bool) ensures r == (self.0 > o.0) { unimplemented!() }
+    #[verifier::external_body] pub fn lt(&self, o: &Target) -> (r: bool) ensures r == (self.0 < o.0) { unimplemented!() }
+}
+#[verifier::external_body] pub fn persistent(msg: u8) -> BlockSourceError { unimplemented!() }
+#[verifier::external_body] pub fn work_eq(a: Work, b: Work) -> (r: bool) ensures r == (a.0 == b.0) { unimplemented!() }
+
+impl ValidatedBlockHeader {
+	fn check_builds_on(
+		&self, previous_header: &ValidatedBlockHeader, network: Network,
+	) -> (r: BlockSourceResult<()>)
+        requires previous_header.inner.height < u32::MAX, previous_header.inner.chainwork.0 < 0x7fff_ffff_ffff_ffff,
+        ensures
+            // (P) headers that do not connect are refused
+            r is Ok ==> self.inner.header.prev_blockhash.0 == previous_header.block_hash.0
+                && self.inner.height == previous_header.inner.height + 1,
+    {
+		if self.inner.header.prev_blockhash.0 != previous_header.block_hash.0 {
+			return Err(persistent(0));
+		}
+
+		if self.inner.height != previous_header.inner.height + 1 {
+			return Err(persistent(1));
+		}
+		Ok(())
+	}
+}
+
 }
 fn main() {}
